@@ -2426,24 +2426,55 @@ func ruleWitnessCoveredShortcut(c *Ctx) {
 			c.Fail("witness-covered-shortcut.known-header", c.P.Pos(hdrIf.Else.Pos()), "Blockchain.AddBlock: when the header of the block is already known only the block hash is compared with the known one; the hash does not cover the witness, so a copy of the block with any other witness (unsigned, `PUSH1`) is accepted and StoreAsBlock overwrites the verified header with it")
 		}
 	}
-	// (2) the pooled-transaction shortcut: the branch on memPool.ContainsKey
+	// (2) the pooled-transaction shortcut: the if statement whose body hands the transaction to the scratch pool
+	// directly (Pool.Add) while its else branch goes through verifyAndPoolTx
 	var poolIf *ast.IfStmt
 	ast.Inspect(fd.Decl.Body, func(x ast.Node) bool {
-		if is, ok := x.(*ast.IfStmt); ok && poolIf == nil {
-			if f.DirectMentions(is.Cond)["pkg/core/mempool.(*Pool).ContainsKey"] {
-				poolIf = is
+		is, ok := x.(*ast.IfStmt)
+		if !ok || poolIf != nil || is.Else == nil {
+			return true
+		}
+		adds, verifies := false, false
+		ast.Inspect(is.Body, func(y ast.Node) bool {
+			if call, ok := y.(*ast.CallExpr); ok && f.calleeSym(call) == symPoolAdd {
+				adds = true
 			}
+			return true
+		})
+		ast.Inspect(is.Else, func(y ast.Node) bool {
+			if call, ok := y.(*ast.CallExpr); ok && f.calleeSym(call) == symVerifyPool {
+				verifies = true
+			}
+			return true
+		})
+		if adds && verifies {
+			poolIf = is
 		}
 		return true
 	})
 	if poolIf == nil {
 		c.OK("witness-covered-shortcut.pooled-tx", c.P.Pos(fd.Decl.Pos()), "AddBlock has no shortcut for pooled transactions")
 	} else {
-		looks := false
-		ast.Inspect(poolIf, func(x ast.Node) bool {
-			if se, ok := x.(*ast.SelectorExpr); ok && x != ast.Node(poolIf.Else) {
-				if v, ok := f.Info.ObjectOf(se.Sel).(*types.Var); ok && v.IsField() && symOf(v) == "pkg/core/transaction#Scripts" {
-					looks = true
+		mentionsScripts := func(n ast.Node, info *types.Info) bool {
+			hit := false
+			ast.Inspect(n, func(x ast.Node) bool {
+				if se, ok := x.(*ast.SelectorExpr); ok {
+					if v, ok := info.ObjectOf(se.Sel).(*types.Var); ok && v.IsField() && symOf(v) == "pkg/core/transaction#Scripts" {
+						hit = true
+					}
+				}
+				return true
+			})
+			return hit
+		}
+		looks := mentionsScripts(poolIf.Cond, f.Info)
+		// or through a helper of the ledger called in the condition (one level)
+		ast.Inspect(poolIf.Cond, func(x ast.Node) bool {
+			if call, ok := x.(*ast.CallExpr); ok {
+				if cf := calleeFunc(f.Info, call); cf != nil {
+					if hd := c.P.DeclOf(cf); hd != nil && hd.Decl.Body != nil && pkgRel(hd.Pkg.Types) == "pkg/core" && mentionsScripts(hd.Decl.Body, hd.Pkg.TypesInfo) {
+						looks = true
+					}
 				}
 			}
 			return true
